@@ -272,6 +272,23 @@ def _expect_guards(ctx, fn, table, ifs):
             ctx.fail(fn, s, '`%s` is done when `%s`, expected when `%s` (%s)' % (action, U(test), formula, meaning), witness=w, stmt=test)
 
 
+def expect_statements(ctx, fn, table):
+    """table = [(canonical statement text, what it means)]: a statement with that canonical text (after normalisation) is somewhere in fn"""
+    def NT(x):
+        try:
+            return ' '.join(U(canon(x)).split())
+        except Exception:
+            return ' '.join(U(x).split())
+    have = {}
+    for s in ast.walk(fn.node):
+        if isinstance(s, ast.stmt) and not isinstance(s, (ast.If, ast.For, ast.While, ast.Try, ast.With, ast.FunctionDef, ast.ClassDef)):
+            have.setdefault(NT(s), s)
+    for text, meaning in table:
+        ctx.count(1, '%s: %s' % (fn.qual, text))
+        if NT(ast.parse(text).body[0]) not in have:
+            ctx.fail(fn, fn.node, 'no statement `%s` (%s) in %s' % (text, meaning, fn.qual))
+
+
 def main_chain(block):
     """the dispatch chain of a block: the longest if/elif/else chain among its top-level `if`s (after else-elimination a chain of
     returning branches is a run of sibling ifs, read as one chain from its first member)"""
